@@ -702,6 +702,17 @@ def layout_tie(run, variants, mods, tabs, model, encs, ext):
                 lay = lays[tn]
                 if lay is None:
                     continue
+                if ext:
+                    # how many (value, build) pairs lie where a wrong fetch on the extension path shows: the selected
+                    # extension alternative / a present addition behind a pointer
+                    el = tab["d"][names.index(tn)]["elems"]
+                    nr = len(c["x"]["rtrees"])
+                    if c["x"]["kind"] == "choice":
+                        i = c["v"][1]
+                        run.count("ext_choice_value(%s alternative held %s)" % ("extension" if i >= nr else "root", "by pointer" if el[i]["flags"] & 1 else "inline"))
+                    else:
+                        npres = sum(1 for a in c["v"][1][nr:] if a[0] == "!")
+                        run.count("ext_seq_value(%s)" % ("no addition present" if not npres else "additions present, all pointers" if all(e["flags"] & 1 for e in el[nr:]) else "additions present, some inline"))
                 for s, cmd in (("der", "lay_xder" if ext else "lay_der"), ("uper", "lay_xuper 0" if ext else "lay_uper 0"), ("oer", "lay_xoer" if ext else "lay_oer")):
                     if skips(var.opts, s) or vi not in enc[s][j]:
                         continue
